@@ -175,14 +175,15 @@ def computeAddressWeights (h : List (Nat × Nat)) (startFrom untilE : Nat) : R (
     | none => (st.1, st.2 ++ [(e, st.1)])) (0, [])
   pure acc
 
-/-- `compute_contract_weights` (with the `else` branch that does not insert the earliest epoch) -/
+/-- `compute_contract_weights` (after the F-06 fix: the earliest snapshot is inserted when it lies
+    at or after `start_from`) -/
 def computeContractWeights (h : List (Nat × Nat)) (startFrom untilE : Nat) : R (List (Nat × Nat)) := do
   let (startId, w0, init) ← match histGet h startFrom with
     | some w => pure (startFrom, w, [(startFrom, w)])
     | none =>
       match histEarliest h with
       | none => .error .unauthorized
-      | some (e0, w) => pure (e0, w, [])
+      | some (e0, w) => pure (e0, w, if e0 ≥ startFrom then [(e0, w)] else [])
   let n := untilE - startId
   let (_, acc) := (List.range n).foldl (fun (st : Nat × List (Nat × Nat)) i =>
     let e := startId + 1 + i
@@ -242,14 +243,16 @@ def calculateRewards (s : FmState) (env : FmEnv) (lp : Denom) (receiver : Addr) 
   let agg ← aggregateCoins r.1
   pure ⟨agg, r.2.1, r.2.2⟩
 
-/-- `sync_address_lp_weight_history(address, lp, epoch, save_last)` -/
+/-- `sync_address_lp_weight_history(address, lp, epoch, save_last)` (after the F-04 fix): without
+    `save` the whole history is dropped; with it the entries up to `epoch` are compacted into one
+    entry at `epoch` carrying the weight in effect there, later entries are kept. -/
 def syncHistory (s : FmState) (a : Addr) (lp : Denom) (epoch : Nat) (save : Bool) : R FmState := do
   let h := s.hist a lp
-  let (earliest, _) ← match histEarliest h with | some x => pure x | none => .error .notFound
-  let (latestE, latestW) := (histLatest h).getD (epoch, 0)
-  let h' := h.filter fun x => !(earliest ≤ x.1 && x.1 ≤ latestE)
-  let h'' := if save then histSet h' epoch latestW else h'
-  pure (s.setHist a lp h'')
+  if h.isEmpty then .error .notFound
+  if !save then pure (s.setHist a lp []) else
+  match (h.filter (·.1 ≤ epoch)).getLast? with
+  | none => pure s
+  | some (_, w) => pure (s.setHist a lp (histSet (h.filter (·.1 > epoch)) epoch w))
 
 def uniqueDenoms (ps : List Position) : List Denom :=
   (ps.map (·.lpDenom)).foldl (fun acc d => if acc.contains d then acc else
